@@ -412,6 +412,31 @@ pub fn queries(sink: &mut Sink, rng: &mut Rng, thorough: bool, work: &Path) {
           sink.count("union:pos");
           sink.emit(&format!("mup {} {} {} {}", etxt, dep as u8, idx, od), &ans, true);
         }
+        // cone queries around the same position: the cone MOC is computed by the library's own `from_cone`
+        // (cdshealpix geometry = trusted oracle for the region only) at the depth the documentation gives
+        // (best starting depth of the radius + precision, at most 29); selection judged by the model
+        let r_arcsec = *rng.pick(&[0.05f64, 0.5, 5.0, 60.0, 600.0]);
+        let prec = *rng.pick(&[0u8, 1, 2, 3]);
+        let r_rad = (r_arcsec / 3600.0).to_radians();
+        let cdepth = if !cdshealpix::has_best_starting_depth(r_rad) { prec } else { (cdshealpix::best_starting_depth(r_rad) + prec).min(29) };
+        let cone: RangeMOC<u64, Hpx<u64>> = RangeMOC::from_cone(lon_p.to_radians(), lat_p.to_radians(), r_rad, cdepth, 2, moc::moc::range::CellSelection::All);
+        let region = moc_ranges_u64(&cone);
+        let (rs, ps) = (format!("{}", r_arcsec), prec.to_string());
+        for included in [false, true] {
+          let dep = rng.chance(1, 2);
+          let par = rng.chance(1, 2);
+          let mut args: Vec<&str> = vec!["query"];
+          if dep { args.push("-d"); }
+          if par { args.extend(["-p", "3"]); }
+          args.extend([file.to_str().unwrap(), "cone", &lon_s, &lat_s, &rs, "-p", &ps]);
+          if included { args.push("-i"); }
+          let r = run("mocset", &args, None, &[]);
+          let mut got: Vec<u64> = r.out.lines().skip(1).filter_map(|l| l.trim().split(',').next().and_then(|x| x.parse().ok())).collect();
+          got.sort_unstable();
+          let ans = if !r.ok { format!("err {}", r.err.lines().next().unwrap_or("")) } else if got.is_empty() { "_".to_string() } else { got.iter().map(|x| x.to_string()).collect::<Vec<_>>().join(",") };
+          sink.count(&format!("query:cone-{}", if included { "included" } else { "intersect" }));
+          sink.emit(&format!("mq {} {} {} {}", etxt, included as u8, dep as u8, fmt_ranges(&region)), &ans, true);
+        }
       }
     }
     let _ = fs::remove_dir_all(&dir);
